@@ -122,6 +122,7 @@ class C03(PureCheck):
                 for pad in pads:
                     items = [bytes([97 + j % 26]) for j in range(pad)] + [K] + [bytes([65 + j % 26]) for j in range(12)]
                     yield {"op": "pipe", "items": [list(x) for x in items], "enc": enc}
+                yield {"op": "pipe", "items": [[97], list(K), [98]], "enc": enc, "highfd": 1}    # descriptor number above 256
         # scalar values
         cps = [0x20, 0x7E, 0x7F, 0x80, 0x7FF, 0x800, 0xFFF, 0x1000, 0xD7FF, 0xE000, 0xFFFD, 0xFFFF, 0x10000, 0x3FFFF, 0x40000, 0xFFFFF, 0x100000, 0x10FFFF]
         if tier == "quick":
@@ -145,7 +146,7 @@ class C03(PureCheck):
             return T.node_event(inp["buf"], inp["enc"])
         if inp["op"] == "pipe":
             ev = dict(inp)
-            ev.update(keylib.run_pipe(T, [bytes(x) for x in inp["items"]], inp["enc"], self.pipe))
+            ev.update(keylib.run_pipe(T, [bytes(x) for x in inp["items"]], inp["enc"], self.pipe, highfd=bool(inp.get("highfd"))))
             return ev
         if inp["op"] == "stream":
             ev = dict(inp)
